@@ -129,7 +129,14 @@ fn cmd_check(prop: &str, tier: &str) -> i32 {
     let mut lines = Vec::new();
     let replay_dir = verif_dir().join("replays");
     let _ = std::fs::create_dir_all(&replay_dir);
+    let mut infra = 0;
     for f in &out.failures {
+        if f.fail.sig.starts_with("harness:") {
+            // the harness could not do its job (probe package does not compile after an API change, cargo missing, ...): inconclusive, never a violation
+            infra += 1;
+            eprintln!("[{}] sub-check {} INCONCLUSIVE (harness problem): {}\n    signature: {}", def.id, f.sub, f.fail.msg, f.fail.sig);
+            continue;
+        }
         violations += 1;
         let name = format!("{}-{}-{:016x}.json", def.id, f.sub.replace(|c: char| !c.is_alphanumeric(), "_"), vmodel::wire::fnv64(&f.tape) ^ vmodel::wire::fnv64(f.fail.sig.as_bytes()));
         let path = replay_dir.join(name);
@@ -182,6 +189,8 @@ fn cmd_check(prop: &str, tier: &str) -> i32 {
     }
     if violations > 0 {
         1
+    } else if infra > 0 {
+        2
     } else {
         0
     }
